@@ -1,6 +1,6 @@
 CONSTANTS NT = 3 NTh = 3 NI = 3 ReuseIdents = TRUE Deviations = {} MaxOps = 3 Apis = {"threading"}
           NPre = 1 Names = {1, 3} IgnNames = {3} DummyIgn = {TRUE, FALSE} MaxX = 2
-          KeepHist = TRUE RenameSame = FALSE
+          KeepHist = TRUE RenameSame = FALSE NHook = 1
 SPECIFICATION Spec
 INVARIANT ProbeReuse
 CHECK_DEADLOCK FALSE
